@@ -112,6 +112,28 @@ prog('lang', {
              R(content='xx', len=2, id='x', set=[7], lang='BAD'), R(2, 'p')],
     'txt': [R(3, 't')],
 }, ['', '0', '1', '2', '3'], templates={'sub': 'sub {{.txt}}'})
+# reenter: the entry node (and other nodes) re-entered BY NAME deeper in the stack, then rewound / popped
+prog('reenter', {
+    'root': [I('LOAD', 'aa', n=5), I('HALT'), I('INCMP', 'sub', '1'), I('INCMP', '^', '2'), I('INCMP', '_', '0')],
+    'sub': [I('LOAD', 'bb', n=5), I('HALT'), I('INCMP', 'root', '1'), I('INCMP', '^', '2'), I('INCMP', '_', '0'), I('INCMP', 'leaf', '3')],
+    'leaf': [I('HALT'), I('INCMP', 'sub', '1'), I('INCMP', '^', '2'), I('INCMP', '_', '0'), I('INCMP', 'root', '3')],
+    '_catch': CATCH,
+}, {
+    'aa': [R(3, 'a')],
+    'bb': [R(2, 'b')],
+}, ['', '0', '1', '2', '3'])
+
+# capacity: a small cache capacity; LOAD / RELOAD results that fit, exactly fill, and exceed what is left
+prog('capacity', {
+    'root': [I('LOAD', 'aa', n=0), I('MAP', 'aa'), I('HALT'), I('INCMP', 'again', '1'), I('INCMP', 'sub', '2'), I('INCMP', '.', '3')],
+    'again': [I('RELOAD', 'aa'), I('HALT'), I('INCMP', '_', '0'), I('INCMP', '.', '1')],
+    'sub': [I('LOAD', 'bb', n=0), I('RELOAD', 'aa'), I('HALT'), I('INCMP', '_', '0'), I('INCMP', 'again', '1')],
+    '_catch': CATCH,
+}, {
+    'aa': [R(3, 'a'), R(9, 'A'), R(0), R(10, 'x')],
+    'bb': [R(4, 'b'), R(7, 'B')],
+}, ['', '0', '1', '2', '3'], templates={'root': 'root {{.aa}}', 'again': 'again {{.aa}}', 'sub': 'sub {{.aa}}'}, cachesize=10)
+
 # pages: a paged sink walked with next / previous, then a graceful end whose exit value is appended to the last page
 prog('pages', {
     'root': [I('LOAD', 'txt', n=0), I('MAP', 'txt'), I('MNEXT', 'next', '11'), I('MPREV', 'prev', '22'), I('MOUT', 'quit', '9'), I('HALT'),
